@@ -115,6 +115,28 @@ impl Writer<TW> for Collect {
 
 impl writer::Normalized for Collect {}
 
+// no statistics of its own: all zero (so Tee's maximum is the other side's)
+impl writer::Stats<TW> for Collect {
+    fn passed_steps(&self) -> usize {
+        0
+    }
+    fn skipped_steps(&self) -> usize {
+        0
+    }
+    fn failed_steps(&self) -> usize {
+        0
+    }
+    fn retried_steps(&self) -> usize {
+        0
+    }
+    fn parsing_errors(&self) -> usize {
+        0
+    }
+    fn hook_errors(&self) -> usize {
+        0
+    }
+}
+
 /// Runs a raw stream through the real `Normalize` and returns what comes out.
 pub fn normalize(items: &[Item]) -> Vec<Item> {
     let c = Collect::default();
